@@ -23,6 +23,10 @@
 //	block interval        (getSleepTime only) 1, slot/3, slot-1 ms
 //
 // Oracles: see the comments at (a) … (d) in runItem.
+//
+// Second phase (schedule.go, shard processes): the miner's own composition of these functions -
+// the real (*Miner).schedule / Start / mine timer / sealBlock / retry timer under a virtual clock,
+// with deputy counts that differ across the term change in both directions. See the comment there.
 package main
 
 import (
@@ -748,7 +752,7 @@ func main() {
 	}
 
 	r := core.NewResult("C13", "exploration")
-	r.Rule = "full grid: deputy count x list variant (exact / capped with candidates) x slot length x target height (16 heights over 3 terms, TermDuration=10, InterimDuration=3, different list per term) x parent miner (every rank + non-deputies) x target deputy x time offset (every second of 3 rounds with ms deltas -1,0,1,500,999; slot edges after 10^3 and 10^6 rounds; 2^32-1 s; parent up to 2.5 s in the future) x block interval; every real call is compared with the reference rotation. Distinct outcome = (oracle, height class, slot-in-round | distance | window round/running | sleep branch | verdict)"
+	r.Rule = "full grid: deputy count x list variant (exact / capped with candidates) x slot length x target height (16 heights over 3 terms, TermDuration=10, InterimDuration=3, different list per term) x parent miner (every rank + non-deputies) x target deputy x time offset (every second of 3 rounds with ms deltas -1,0,1,500,999; slot edges after 10^3 and 10^6 rounds; 2^32-1 s; parent up to 2.5 s in the future) x block interval; every real call is compared with the reference rotation. Distinct outcome = (oracle, height class, slot-in-round | distance | window round/running | sleep branch | verdict). Schedule phase (real (*Miner).schedule, Start, mine timer callback, sealBlock, retry timer; virtual clock): term record sizes (a,b,a) and (b,a,b) for the listed pairs x exact/capped x slot x the same 16 heights x parent miner (every deputy of the target term, every deputy of the previous term, unknown key, candidate beyond the cap, member of another term) x scheduling node (every deputy of the target term + non-deputies) x the same clock offsets x block interval; lifecycle: Start at every slot edge of the first round, then 3 failed mines with the retry timer, tx pool empty/non-empty, current block replaced by a sibling before the retry"
 	r.Assume = []string{
 		"slot lengths are whole seconds (property quantifier); the node's config check additionally demands timeout >= 3000 ms and 0 < sleepTime < timeout, slot 1000 ms is included anyway",
 		"a term record exists for the term in charge of the target height (term change bookkeeping is another property)",
@@ -756,6 +760,11 @@ func main() {
 		"headers stamped before their parent and parent times before 1970-04-26 (GetCorrectMiner panics below 1e10 ms) are outside the statement",
 		"PrepareHeader reads the wall clock, so its stamping rule max(parent.time, floor(now/1000)) is re-stated in the harness and the real function is checked for the clock-independent part of it",
 		"block interval (sleepTime) in {1, slot/3, slot-1} ms",
+		"schedule phase: the goroutine of runMineLoop is not started; the harness receives the MineInfo from timeToMineCh and calls sealBlock itself, and it calls schedule(block) itself for a new current block (the loop's own three statements are not under test)",
+		"schedule phase: a timer fires exactly when it is due (the retry timer: at the first instant >= due after sealBlock returned); time.Timer.Stop is not modelled, callbacks of timers the miner has replaced are discarded by the harness",
+		"schedule phase: Chain.MineBlock is a stub that records the instant and produces no block (a failed mine); the stamp of the block it would have built is max(parent.time, floor(now/1000)) as in the grid",
+		"schedule phase: with an empty tx pool sealBlock polls every 500 ms until windowEnd - ReservedPropagationTime and can call MineBlock at or after the window end when that reserve is < 500 ms (valid configs with timeout - sleepTime < 1500 ms); such a block is not mined inside the window, so the statement says nothing about it: recorded as outcome, not asserted",
+		"schedule phase quick tier: block intervals 1 and slot-1 ms run the clock positions up to the end of the first slot plus the slot edges of the first round (the interval is only read while distance == 1 and less than one slot has elapsed); empty pool / block switch only with interval slot/3; thorough runs the full product",
 	}
 	checkPrepareHeader(r)
 
